@@ -38,6 +38,8 @@ func checkC06(r *Run) {
 	r.Rule("R6", "lexer literal = token constant = evaluator label for every operator token", 13)
 	r.Rule("R7", "every arm of the inside-tag token switch leaves the cursor exactly behind its token", 25)
 
+	r.Rule("R8", "'!' negates the uniform truthiness predicate of its operand", 1)
+	bangArmRule(r, "R8")
 	c06Precedence(r)
 	c06Pratt(r)
 	c06OperatorTables(r)
